@@ -66,6 +66,8 @@ EDGE_TEXTS = [
     "struct S { uint8 a; ; };", "struct S { enum E { A }; };", "struct S { typedef uint8 x; };", "struct S { #define A 1\n uint8 x[A]; };",
     "enum E { A };", "enum E { A, B = 3, C, };", "enum E : uint8 { A = 1 << 2, B = A | 1 };", "enum E:uint8{A};", "enum E :uint8 {A} ;", "enum{A};", "enum {A};",
     "enum E{A};", "enum E :{A};", "enum E : {A};", "enum E :  {A};", "enum E : unsigned int { A };", "enum E : unsigned  int { A };", "enum E : unsigned\nint { A };",
+    "enum E : unsigned /* c */ long\nlong { A };", "flag F :unsigned\tshort{ A };", "enum E : unsigned\u00a0int { A };", "enum E : unsigned\x1cint { A };",
+    "enum E :  unsigned   long   long  { A = 1 };", "enum : signed\r\nchar { A };", "enum E : unsigned int x { A };",
     "enum E { };", "enum E {};", "enum E { A }", "enum E { A } x;", "enum E F { A };", "flag F { A, B, C = 8, D };", "flag F : uint16 { A = 1, B = A };",
     "enum E { A = 1, B, C\n = 7 };", "enum E { A = 1, B, C =\n 7 };", "enum E { A = 1\r\n, B\r, C = 2 = 3, = 4, D };", "enum E { A,\n\n B,, C };",
     "enum E { A = 1, A = 2, B };", "enum E { A\x0b = 1, B\x0c, C\x1c = 3, D\x1f = 4 };", "enum E : uint8; struct { uint8 a; };", "enum : uint8 { A };", "enum E { A }; enum { B };",
